@@ -23,11 +23,12 @@ var weExprText = map[string]string{
 	"tmpl": `"a${var.b}c"`, "here": "<<EOT\n  hello ${var.b}\nEOT", "call": "f(1, 2)", "cond": "x ? 1 : 2",
 	"here2": "<<EOT\n${var.b} is up\n%{ if true }yes%{ endif }\n  ${var.y}\nEOT", "here3": "<<-EOT\n    %{ for v in [1, 2] }${v}%{ endfor }\n    tail\n    EOT",
 	"v7": "7", "vs": `"hi"`, "vt": "var.y",
+	"idxt": "var.m[true]", "idxn": "var.m[null]", "rt": "local.p", "ru": "local.q2",
 }
 var weCommentText = map[string]string{"c1": "# c1 = { \"", "c2": "// c2", "c3": "/* c3 */"}
 
 func weNorm(s string) string {
-	return strings.NewReplacer(" ", "", "\t", "").Replace(s)
+	return strings.NewReplacer(" ", "", "\t", "", "\r", "").Replace(s)
 }
 
 var weExprID, weCommentID = map[string]string{}, map[string]string{}
@@ -42,7 +43,7 @@ func init() {
 	Modules["writeedit"] = func(behs [][]Step, tr *Trace, env Env, sum *Summary) { RunWriteEdit(behs, tr, env, sum) }
 }
 
-func weRender(items []any, ind string, rng *rand.Rand, sb *strings.Builder) {
+func weRender(items []any, ind string, rng *rand.Rand, sb *strings.Builder, lay string) {
 	eqs := []string{" = ", "=", "   =   ", " =\t", "\t= "}
 	for _, it := range items {
 		m := nodeOf(it)
@@ -67,11 +68,25 @@ func weRender(items []any, ind string, rng *rand.Rand, sb *strings.Builder) {
 		case "block":
 			lead()
 			sb.WriteString(ind + m["type"].(string))
+			if lay == "midnote" { // a comment between the block's type and what follows
+				sb.WriteString(" /* c3 */")
+			}
 			for _, l := range listOf(m["labels"]) {
 				sb.WriteString([]string{" ", "  "}[rng.Intn(2)] + `"` + l.(string) + `"`)
 			}
+			body := listOf(m["body"])
+			if lay == "oneline" && len(body) == 0 {
+				sb.WriteString(" {}\n")
+				break
+			}
+			if lay == "oneline" && len(body) == 1 {
+				if a := nodeOf(body[0]); a["k"] == "attr" && len(listOf(a["lead"])) == 0 && a["line"] == "" && !strings.Contains(weExprText[a["expr"].(string)], "\n") {
+					sb.WriteString(" { " + a["name"].(string) + " = " + weExprText[a["expr"].(string)] + " }\n")
+					break
+				}
+			}
 			sb.WriteString([]string{" {", "{", "   {"}[rng.Intn(3)] + "\n")
-			weRender(listOf(m["body"]), ind+[]string{"  ", "", "      ", "\t"}[rng.Intn(4)], rng, sb)
+			weRender(body, ind+[]string{"  ", "", "      ", "\t"}[rng.Intn(4)], rng, sb, lay)
 			sb.WriteString(ind + "}\n")
 		}
 	}
@@ -274,8 +289,19 @@ func RunWriteEdit(behs [][]Step, tr *Trace, env Env, sum *Summary) {
 		rng := rand.New(rand.NewSource(env.Seed*9973 + int64(bi)*131 + int64(env.Shard)))
 		load := beh[0]
 		var sb strings.Builder
-		weRender(listOf(load["doc"]), "", rng, &sb)
-		src := []byte(sb.String())
+		lay := load.Str("lay")
+		weRender(listOf(load["doc"]), "", rng, &sb, lay)
+		text := sb.String()
+		switch lay {
+		case "bom":
+			text = "\xef\xbb\xbf" + text
+		case "noeol":
+			text = strings.TrimRight(text, "\n")
+		case "crlf":
+			text = strings.ReplaceAll(text, "\n", "\r\n")
+		}
+		src := []byte(text)
+		var rawBuf hclwrite.Tokens // the caller's token buffer, reused from one SetAttributeRaw to the next
 		tr.Emit(map[string]any{"ev": "Reset"})
 		var f *hclwrite.File
 		step := func(ev string, o Step, fn func()) bool {
@@ -344,6 +370,17 @@ func RunWriteEdit(behs [][]Step, tr *Trace, env Env, sum *Summary) {
 					case "vt":
 						body.SetAttributeTraversal(o.Str("name"), hcl.Traversal{hcl.TraverseRoot{Name: "var"}, hcl.TraverseAttr{Name: "y"}})
 					}
+				case "SetAttrRaw":
+					rawBuf = rawBuf[:0]
+					for i, part := range strings.Split(weExprText[o.Str("expr")], ".") {
+						if i > 0 {
+							rawBuf = append(rawBuf, &hclwrite.Token{Type: hclsyntax.TokenDot, Bytes: []byte(".")})
+						}
+						rawBuf = append(rawBuf, &hclwrite.Token{Type: hclsyntax.TokenIdent, Bytes: []byte(part)})
+					}
+					body.SetAttributeRaw(o.Str("name"), rawBuf)
+				case "Clear":
+					body.Clear()
 				case "RemoveAttr":
 					body.RemoveAttribute(o.Str("name"))
 				case "AppendBlock":
